@@ -46,13 +46,13 @@ def stdOp {σ} (K : Kernel σ) (src : Obsv) : Obsv := fun s =>
     (fun serial => .cellRead c false fun st =>
       let r := K.onComplete (K.dec st)
       .cellWrite c false (K.enc r.1) (holdAcq K.holdComplete c ;; actsP sc serial r.2 ;; holdRel K.holdComplete c))
-    fun o => src o
+    fun o => src.sub o
 
 /-- a hand-written operator: one StreamController, the given closures for the source -/
 def fwdOp (src : Obsv) (n : Sctl → Nat → Data → Prog)
     (e : Sctl → Nat → Nat → Prog := fun sc _ e => sc.sinkError e)
     (c : Sctl → Nat → Prog := fun sc serial => sc.sinkComplete serial) : Obsv := fun s =>
-  sctlNew s fun sc => sc.newObserver (n sc) (e sc) (c sc) fun o => src o
+  sctlNew s fun sc => sc.newObserver (n sc) (e sc) (c sc) fun o => src.sub o
 
 /-! ### creation functions -/
 
@@ -80,7 +80,7 @@ def repeatLoop (s : Nat) (d : Data) : Nat → Prog
   | f+1 => .obsIsSub s fun b => if b then .obsNext s d (repeatLoop s d f) else .done
 def oRepeat (d : Data) : Obsv := fun s => repeatLoop s d 100000
 
-def oDefer (f : Obsv) : Obsv := fun s => f s
+def oDefer (f : Obsv) : Obsv := fun s => f.sub s
 def oStart (d : Data) : Obsv := oJust d
 
 /-! ### instrumented sources of the harness -/
@@ -112,9 +112,9 @@ def oFlaky (tag : Nat) (counter : Nat) (scripts : List (List Ev)) : Obsv := fun 
 
 def oFirst (src : Obsv) : Obsv := stdOp kId (stdOp (kTake 1) src)
 def oLast (src : Obsv) : Obsv := stdOp kId (stdOp (kTakeLast 1) src)
-/-- element_at(n) (1-based): skip(n-1).take(1); n = 0 behaves as take(0).last() -/
+/-- element_at(n) (1-based) = take(n).skip(n-1) behind a forwarding controller -/
 def oElementAt (n : Nat) (src : Obsv) : Obsv :=
-  stdOp kId (oLast (stdOp (kTake 1) (stdOp (kSkip (n - 1)) src)))
+  stdOp kId (stdOp (kSkip (n - 1)) (stdOp (kTake n) src))
 
 def oAll (p : Pred) (src : Obsv) : Obsv :=
   fwdOp (stdOp (kTake 1) (stdOp (kFilter p) src))   -- filter keeps the items that FAIL `p` (see denote)
@@ -148,7 +148,7 @@ def oTap (tag : Nat) (src : Obsv) : Obsv := fun s =>
 
 def subscribeAll : List (Obsv × Nat) → Prog
   | [] => .done
-  | (src, o) :: rest => src o ;; subscribeAll rest
+  | (src, o) :: rest => src.sub o ;; subscribeAll rest
 
 /-- create `n` observers with the same closures ("prepare subscribers") -/
 def newObservers (sc : Sctl) (n : Nat) (mk : Nat → (Nat → Data → Prog) × (Nat → Nat → Prog) × (Nat → Prog))
@@ -234,18 +234,18 @@ def concatNext (sc : Sctl) (q : Nat) (others : List Obsv) : Nat → Prog
       | some o =>
         .cellWrite q false (.int (i + 1)) <|
         sc.newObserver (fun _ x => sc.sinkNext x) (fun _ e => sc.sinkError e)
-          (fun _ => concatNext sc q others fuel) fun ob => o ob
+          (fun _ => concatNext sc q others fuel) fun ob => o.sub ob
 
 def oConcat (src : Obsv) (others : List Obsv) : Obsv := fun s =>
   sctlNew s fun sc => .cellNew (.int 0) fun q =>
   sc.newObserver (fun _ x => sc.sinkNext x) (fun _ e => sc.sinkError e)
-    (fun _ => concatNext sc q others 100000) fun ob => src ob
+    (fun _ => concatNext sc q others 100000) fun ob => src.sub ob
 
 def oTakeUntil (src trigger : Obsv) : Obsv := fun s =>
   sctlNew s fun sc =>
   sc.newObserver (fun _ _ => sc.sinkCompleteForce) (fun _ _ => .done) (fun _ => .done) fun ot =>
   sc.newObserver (fun _ x => sc.sinkNext x) (fun _ e => sc.sinkError e) (fun _ => sc.sinkCompleteForce)
-    fun os => trigger ot ;; src os
+    fun os => trigger.sub ot ;; src.sub os
 
 def oSkipUntil (src trigger : Obsv) : Obsv := fun s =>
   .cellNew (.bool false) fun en =>
@@ -255,7 +255,7 @@ def oSkipUntil (src trigger : Obsv) : Obsv := fun s =>
   sc.newObserver
     (fun _ x => .cellRead en false fun b => if b.toBool then sc.sinkNext x else .done)
     (fun _ e => sc.sinkError e) (fun _ => sc.sinkCompleteForce)
-    fun os => trigger ot ;; src os
+    fun os => trigger.sub ot ;; src.sub os
 
 def oSample (src trigger : Obsv) : Obsv := fun s =>
   .cellNew .lnil fun v =>
@@ -267,22 +267,22 @@ def oSample (src trigger : Obsv) : Obsv := fun s =>
   sc.newObserver
     (fun _ x => .cellWrite v false (Data.optEnc (some x)) .done)
     (fun _ e => sc.sinkError e) (fun _ => sc.sinkCompleteForce)
-    fun os => trigger ot ;; src os
+    fun os => trigger.sub ot ;; src.sub os
 
 def oSwitchOnNext (src target : Obsv) : Obsv := fun s =>
   sctlNew s fun sc => .cellNew (.bool false) fun em =>
   sc.newObserver
     (fun serial x => .cellRead em false fun b => if b.toBool then sc.abortObserve serial else sc.sinkNext x)
     (fun _ e => sc.sinkError e) (fun serial => sc.sinkComplete serial) fun o1 =>
-  src o1 ;;
   sc.newObserver
     (fun _ x => .cellWrite em false (.bool true) (sc.sinkNext x))
-    (fun _ e => sc.sinkError e) (fun _ => sc.sinkCompleteForce) fun o2 => target o2
+    (fun _ e => sc.sinkError e) (fun _ => sc.sinkCompleteForce) fun o2 =>
+  src.sub o1 ;; target.sub o2
 
 def oFlatMap (f : Data → Obsv) (src : Obsv) : Obsv :=
   fwdOp src fun sc _ x =>
     sc.newObserver (fun _ xx => sc.sinkNext xx) (fun _ ee => sc.sinkError ee)
-      (fun serial => sc.sinkComplete serial) fun o => f x o
+      (fun serial => sc.sinkComplete serial) fun o => (f x).sub o
 
 def retrySubscribe (sc : Sctl) (src : Obsv) (max : Nat) : Nat → Nat → Prog
   | 0, _ => .done
@@ -291,7 +291,7 @@ def retrySubscribe (sc : Sctl) (src : Obsv) (max : Nat) : Nat → Nat → Prog
       (fun serial e =>
         if max == 0 || n < max then sc.abortObserve serial ;; retrySubscribe sc src max fuel (n + 1)
         else sc.sinkError e)
-      (fun serial => sc.sinkComplete serial) fun o => src o
+      (fun serial => sc.sinkComplete serial) fun o => src.sub o
 
 def oRetry (max : Nat) (src : Obsv) : Obsv := fun s =>
   sctlNew s fun sc => retrySubscribe sc src max 100000 1
@@ -303,7 +303,7 @@ def retryWhenSubscribe (sc : Sctl) (src : Obsv) (p : EPred) : Nat → Prog
       (fun serial e =>
         if p.app e then sc.abortObserve serial ;; retryWhenSubscribe sc src p fuel
         else sc.sinkError e)
-      (fun serial => sc.sinkComplete serial) fun o => src o
+      (fun serial => sc.sinkComplete serial) fun o => src.sub o
 
 def oRetryWhen (p : EPred) (src : Obsv) : Obsv := fun s =>
   sctlNew s fun sc => retryWhenSubscribe sc src p 100000
@@ -313,6 +313,6 @@ def oOnErrorResumeNext (f : Nat → Obsv) (src : Obsv) : Obsv :=
     (fun sc serial e =>
       sc.abortObserve serial ;;
       sc.newObserver (fun _ xx => sc.sinkNext xx) (fun _ ee => sc.sinkError ee)
-        (fun serial => sc.sinkComplete serial) fun o => f e o)
+        (fun serial => sc.sinkComplete serial) fun o => (f e).sub o)
 
 end Rx
